@@ -99,15 +99,16 @@ func Cleanup() {
 }
 
 type inst struct {
-	cfg   *Cfg
-	dir   string
-	srv   *replica.Server
-	m     *Model
-	obs   []string
-	viol  []kernel.Violation
-	cnt   map[string]int
-	trace bool
-	notes []string
+	cfg    *Cfg
+	dir    string
+	srv    *replica.Server
+	m      *Model
+	obs    []string
+	viol   []kernel.Violation
+	cnt    map[string]int
+	trace  bool
+	notes  []string
+	inDeep bool
 }
 
 func (x *inst) violate(oracle, sig, detail string) {
@@ -115,6 +116,9 @@ func (x *inst) violate(oracle, sig, detail string) {
 }
 
 func (x *inst) observe(f string, a ...interface{}) {
+	if x.inDeep { // deep oracles run once per distinct state per worker: their observations are not part of the digest
+		return
+	}
 	s := fmt.Sprintf(f, a...)
 	x.obs = append(x.obs, s)
 	if x.trace {
@@ -150,6 +154,10 @@ func Exec(req *kernel.Request) (resp *kernel.Response) {
 	}
 	for _, ev := range cfg.InitOps {
 		x.apply(ev)
+		if len(x.viol) > 0 {
+			resp.Err = fmt.Sprintf("init op %s failed: %+v", ev, x.viol[0])
+			return
+		}
 	}
 	for i, ev := range req.Path {
 		x.apply(ev)
@@ -403,7 +411,10 @@ func (x *inst) reopen(preload bool, ev string) {
 	x.observe("%s -> %v", ev, err != nil)
 	if err != nil {
 		x.violate("reopen-failed", "reopen-failed", err.Error())
+		return
 	}
+	x.m.Mode = x.modeForReopen()
+	x.m.Dirty = false
 }
 
 func (x *inst) modeForReopen() string {
